@@ -40,11 +40,115 @@ STUB = ["network transport + fault injector", "virtual clock", "seeded PRNGs (ra
 
 
 def generate(rng, tier, index):
+    if rng.random() < 0.08:
+        # one client OBJECT used for configuration A and then run again for configuration B (kernel-less: the transport is down,
+        # what the client hands to it is recorded)
+        from dst.session.config import gen_config
+        return {"world": "S-rerun", "A": gen_config(rng, allow_uri_append=True, rsa="rsa1024_a"),
+                "B": gen_config(rng, allow_uri_append=True, rsa="rsa1024_a"), "beacon_id": 2 * rng.getrandbits(30),
+                "use_A": rng.choice([["get"], ["get", "post"], ["post"], ["get", "get", "post"], []]),
+                "data": rng.choice(["", "x", "callback output \u00e9"])}
     return sessiongen.gen_session(rng, ID, tier)
 
 
 def execute(plan):
+    if plan.get("world") == "S-rerun":
+        return _execute_rerun(plan)
     return _session.execute_session(plan, ID)
 
 
-candidates = sessiongen.candidates
+def candidates(plan):
+    if plan.get("world") == "S-rerun":
+        return []
+    return sessiongen.candidates(plan)
+
+
+class _DownHttpx:
+    """Stands in for the httpx module inside the client: records what the client hands to the transport and reports the
+    connection as failed (the client logs that and goes on)."""
+
+    def __init__(self):
+        import httpx
+        self._httpx = httpx
+        self.RequestError = httpx.RequestError
+        self.HTTPStatusError = httpx.HTTPStatusError
+        self.sent = []
+
+    def request(self, method, url, headers=None, params=None, content=None, **kw):
+        m = method.decode() if isinstance(method, bytes) else method
+        self.sent.append((m, url, dict(headers or {}), dict(params or {}), content or b""))
+        raise self._httpx.ConnectError("simulated: connection refused", request=self._httpx.Request(m, url))
+
+    def __getattr__(self, name):
+        return getattr(self._httpx, name)
+
+
+def _execute_rerun(plan):
+    from dst.core import Result
+    from dst.session import refcodec as rc
+    from dst.session.config import config_block, rsa_key
+    from dst.session.light import LightSeams
+    from dissect.cobaltstrike import client as client_mod
+    from dissect.cobaltstrike.beacon import BeaconConfig
+    from dissect.cobaltstrike.c_c2 import BeaconCallback
+    from dissect.cobaltstrike.client import HttpBeaconClient
+    res = Result()
+    res.nontrivial = True
+    res.probes["client_object_run_for_another_configuration"] += 1
+    priv = rsa_key("rsa1024_a")
+    opts = dict(dry_run=True, beacon_id=plan["beacon_id"], user="u", computer="c", process="p.exe", internal_ip="10.0.0.1", arch="x64", pid=7)
+    with LightSeams(plan.get("run_seed", "0" * 16)):
+        fake = _DownHttpx()
+        saved = client_mod.httpx
+        client_mod.httpx = fake
+        try:
+            bcA, bcB = BeaconConfig(config_block(plan["A"])), BeaconConfig(config_block(plan["B"]))
+            c = HttpBeaconClient()
+            c.run(bcA, **opts)
+            for what in plan["use_A"]:
+                if what == "get":
+                    c.get_task()
+                else:
+                    c.send_callback(BeaconCallback.CALLBACK_OUTPUT, plan["data"].encode())
+            c.run(bcB, **opts)
+            del fake.sent[:]
+            c.get_task()
+            c.send_callback(BeaconCallback.CALLBACK_OUTPUT, plan["data"].encode())
+            sent = list(fake.sent)
+        finally:
+            client_mod.httpx = saved
+    res.cases = len(sent)
+    cfg = plan["B"]
+    if len(sent) != 2:
+        res.violate(("C07", "rerun", "requests_missing"), f"client run again for another configuration handed {len(sent)} requests to the transport for one check-in and one callback")
+        return res
+    for (method, url, headers, params, content), kind in zip(sent, ("get", "post")):
+        verb = cfg["verb_get"] if kind == "get" else cfg["verb_post"]
+        bases = [u for _, u in cfg["domains"]] if kind == "get" else [cfg["submit"]]
+        path = "/" + url.split("://", 1)[-1].partition("/")[2]
+        res.log.log("rerun", kind, method, path, sorted(params.items()), sorted((str(k), str(v)) for k, v in headers.items()), content)
+        tobytes = lambda x: x if isinstance(x, bytes) else str(x).encode("latin-1")  # noqa: E731
+        problem = None
+        if method != verb:
+            problem = f"verb {method!r}, configuration B says {verb!r}"
+        elif not any(path.startswith(b_) for b_ in bases):
+            problem = f"path {path!r:.80} under none of configuration B's URIs {bases}"
+        else:
+            try:
+                back = rc.ref_decode_request(cfg[kind], path.encode("latin-1"), [(tobytes(k), tobytes(v)) for k, v in params.items()],
+                                             [(tobytes(k), tobytes(v)) for k, v in headers.items()], tobytes(content),
+                                             [b_.encode() for b_ in bases], uri_pct=False)
+                if kind == "get":
+                    pt = rc.rsa_decrypt(back["metadata"], priv)
+                    if pt is None or rc.parse_metadata(pt)["bid"] != plan["beacon_id"]:
+                        problem = "the metadata placed by configuration B's http-get program does not decrypt to this beacon's check-in"
+                elif back.get("id") != str(plan["beacon_id"]).encode():
+                    problem = f"id decodes to {back.get('id')!r:.60}"
+            except rc.RefDecodeError as e:
+                problem = f"not decodable under configuration B's http-{kind} program: {e}"
+        if problem:
+            res.violate(("C07", "rerun", "request_not_of_current_configuration", kind),
+                        f"one client object used for configuration A ({plan['use_A']}) and then run for configuration B sends a {kind} "
+                        f"request that does not follow B: {problem}")
+            break
+    return res
